@@ -1,6 +1,7 @@
 // Picture / sprite-metadata worlds built from plan lines, and deep comparison of the library's
 // structures with the reference models (shared by the image stream families and image-damage).
 #pragma once
+#include <algorithm>
 #include "backends.h"
 #include "../models/refimg.h"
 #include "Bitmap/BitmapFile.h"
@@ -62,6 +63,18 @@ inline ref::RPrt prtFromSpec(const Line& l) {
 		ref::RPrt::Pal pal;
 		if (!canonical && r.chance(1, 2)) { if (r.chance(1, 2)) pal.hdr.tagCount = static_cast<uint32_t>(r.next()); else { uint32_t d = static_cast<uint32_t>(4 * r.range(1, 10)); pal.hdr.secLen = 4 + d; pal.hdr.dataLen = 1024 - d; } }
 		for (auto& c : pal.colors) { auto v = prngBytes(r.next(), 4); memcpy(c.data(), v.data(), 4); }
+		// palettes related to their predecessor: a repeat, the predecessor with two channels exchanged (file order of one = memory order
+		// of the other), the predecessor reversed, or a grey ramp (every channel order reads the same)
+		if (i > 0 && r.chance(1, 3)) {
+			const auto& prev = p.palettes.back().colors;
+			switch (r.below(5)) {
+			case 0: pal.colors = prev; break;
+			case 1: pal.colors = prev; for (auto& c : pal.colors) std::swap(c[0], c[2]); break;
+			case 2: pal.colors = prev; for (auto& c : pal.colors) std::swap(c[0], c[1]); break;
+			case 3: pal.colors = prev; std::reverse(pal.colors.begin(), pal.colors.end()); break;
+			default: for (size_t k = 0; k < pal.colors.size(); ++k) { pal.colors[k][0] = pal.colors[k][1] = pal.colors[k][2] = static_cast<uint8_t>(k); } break;
+			}
+		}
 		p.palettes.push_back(pal);
 	}
 	if (npal == 0) nimg = 0;
